@@ -240,8 +240,10 @@ func server() (*lib.Server, error) {
 	s, err := lib.StartServer(lib.ServerOpts{Dir: filepath.Join(root, "srv"), Label: "srvc09",
 		Cfg: lib.ServerCfg{MaxConnections: 1000000, // logins that never open a shell leak a slot (finding of C14)
 
-			Schedule:   []map[string]interface{}{job("sjob-local", "localhost"), job("sjob-ip", "127.0.0.1"), job("sjob-other", "10.1.2.3"), job("sjob-none"), job("sjob-unres", "no-such-host.invalid")},
-			Continuous: []map[string]interface{}{cjob("cjob-local", "10.9.9.9", "localhost"), cjob("cjob-other", "10.1.2.3"), cjob("cjob-none")}},
+			Schedule:   []map[string]interface{}{job("sjob-local", "localhost"), job("sjob-ip", "127.0.0.1"), job("sjob-other", "10.1.2.3"), job("sjob-none"), job("sjob-unres", "no-such-host.invalid"),
+				// the two kinds of jobs have separate name spaces: the same name may carry different allow lists
+				job("dual-a", "127.0.0.1"), job("dual-b", "10.1.2.3")},
+			Continuous: []map[string]interface{}{cjob("cjob-local", "10.9.9.9", "localhost"), cjob("cjob-other", "10.1.2.3"), cjob("cjob-none"), cjob("dual-a", "10.1.2.3"), cjob("dual-b", "localhost")}},
 		Users: map[string][]string{}})
 	if err != nil {
 		return nil, err
@@ -260,7 +262,7 @@ type hsCase struct {
 	Commands []string // sent once a session is granted
 }
 
-var passwords = []string{"DTAIL-HEALTH", "dtail-health", "DTAIL-HEALTH ", "", "sjob-local", "sjob-ip", "sjob-other", "sjob-none", "sjob-unres", "cjob-local", "cjob-other", "cjob-none", "nosuchjob", "DTAIL-SCHEDULE", "DTAIL-CONTINUOUS"}
+var passwords = []string{"DTAIL-HEALTH", "dtail-health", "DTAIL-HEALTH ", "", "sjob-local", "sjob-ip", "sjob-other", "sjob-none", "sjob-unres", "cjob-local", "cjob-other", "cjob-none", "nosuchjob", "DTAIL-SCHEDULE", "DTAIL-CONTINUOUS", "dual-a", "dual-b", "dual-a", "dual-b"}
 var users = []string{"alice", "DTAIL-HEALTH", "DTAIL-SCHEDULE", "DTAIL-CONTINUOUS", "dtail-health", "root"}
 
 func genHS(t *rapid.T) hsCase {
@@ -272,9 +274,9 @@ func genHS(t *rapid.T) hsCase {
 		case 0:
 			c.User, c.Method, c.Password = "DTAIL-HEALTH", "password", "DTAIL-HEALTH"
 		case 1:
-			c.User, c.Method, c.Password = "DTAIL-SCHEDULE", "password", rapid.SampledFrom([]string{"sjob-local", "sjob-ip", "cjob-local", "sjob-other"}).Draw(t, "sp")
+			c.User, c.Method, c.Password = "DTAIL-SCHEDULE", "password", rapid.SampledFrom([]string{"sjob-local", "sjob-ip", "cjob-local", "sjob-other", "dual-a", "dual-b"}).Draw(t, "sp")
 		case 2:
-			c.User, c.Method, c.Password = "DTAIL-CONTINUOUS", "password", rapid.SampledFrom([]string{"cjob-local", "sjob-local", "cjob-other"}).Draw(t, "cp")
+			c.User, c.Method, c.Password = "DTAIL-CONTINUOUS", "password", rapid.SampledFrom([]string{"cjob-local", "sjob-local", "cjob-other", "dual-a", "dual-b"}).Draw(t, "cp")
 		default:
 			c.User, c.Method = "alice", "key"
 		}
@@ -311,11 +313,11 @@ func evalHS(c hsCase) lib.Outcome {
 		case "DTAIL-HEALTH":
 			want = c.Password == "DTAIL-HEALTH"
 		case "DTAIL-SCHEDULE":
-			want = c.Password == "sjob-local" || c.Password == "sjob-ip"
-			o.NonTrivial = strings.HasPrefix(c.Password, "sjob") || strings.HasPrefix(c.Password, "cjob")
+			want = c.Password == "sjob-local" || c.Password == "sjob-ip" || c.Password == "dual-a"
+			o.NonTrivial = strings.HasPrefix(c.Password, "sjob") || strings.HasPrefix(c.Password, "cjob") || strings.HasPrefix(c.Password, "dual")
 		case "DTAIL-CONTINUOUS":
-			want = c.Password == "cjob-local"
-			o.NonTrivial = strings.HasPrefix(c.Password, "sjob") || strings.HasPrefix(c.Password, "cjob")
+			want = c.Password == "cjob-local" || c.Password == "dual-b"
+			o.NonTrivial = strings.HasPrefix(c.Password, "sjob") || strings.HasPrefix(c.Password, "cjob") || strings.HasPrefix(c.Password, "dual")
 		}
 	}
 	cfg := &gossh.ClientConfig{User: c.User, Auth: auth, HostKeyCallback: gossh.InsecureIgnoreHostKey(), Timeout: 10 * time.Second}
@@ -371,7 +373,7 @@ func evalHS(c hsCase) lib.Outcome {
 
 func TestC09Handshake(t *testing.T) {
 	lib.Run(t, lib.Spec[hsCase]{Prop: "C09", Check: "handshake",
-		Rule: "real SSH logins (x/crypto/ssh client) against one server process: public-key logins with generated authorized_keys files (rewritten per case) and offered keys; password logins for every pairing of {alice, DTAIL-HEALTH, DTAIL-SCHEDULE, DTAIL-CONTINUOUS, look-alikes} x {health password, names of scheduled / continuous jobs whose AllowFrom is localhost / 127.0.0.1 / another address / empty / unresolvable, near misses}; granted health sessions then send 1..3 read/map commands naming a planted secret; oracle: granted <=> the property's rule; a health session never returns the secret; non-trivial = key file with >=2 keys and a non-key line, or a background-user login with a job name, or a health session with commands",
+		Rule: "real SSH logins (x/crypto/ssh client) against one server process: public-key logins with generated authorized_keys files (rewritten per case) and offered keys; password logins for every pairing of {alice, DTAIL-HEALTH, DTAIL-SCHEDULE, DTAIL-CONTINUOUS, look-alikes} x {health password, names of scheduled / continuous jobs whose AllowFrom is localhost / 127.0.0.1 / another address / empty / unresolvable, the same job name in both lists with different AllowFrom, near misses}; granted health sessions then send 1..3 read/map commands naming a planted secret; oracle: granted <=> the property's rule; a health session never returns the secret; non-trivial = key file with >=2 keys and a non-key line, or a background-user login with a job name, or a health session with commands",
 		Gen:  genHS, Eval: evalHS,
 		SampleOf: func(c hsCase) interface{} {
 			return map[string]interface{}{"user": c.User, "method": c.Method, "password": c.Password, "offered": c.Offered, "commands": c.Commands}
